@@ -124,6 +124,19 @@ def strict_diff(a, b, limit=6):
   return out or ['canonical JSON of the snapshots differs']
 
 
+_ERR_DIFF = None
+
+
+def only_decoded_errors(diffs):
+  """Every difference is an error cell ['E', <exception>] that became ['E', 'NoneType']: the value of a cell that depends
+  on an error cell restored from its ENCODING (decode_object gives a RaisedException whose .error is None)."""
+  global _ERR_DIFF
+  import re
+  if _ERR_DIFF is None:
+    _ERR_DIFF = re.compile(r"^[^:]+\[row \d+\]: \['E', '[A-Za-z_.]+'(?:, .*)?\] vs \['E', 'NoneType'\]$")
+  return bool(diffs) and all(_ERR_DIFF.match(x) for x in diffs)
+
+
 def undo_redo_oracle(e, out, before, after, before_schema):
   """C01/C03 oracle for a bundle that has just been applied (engine is left in the post-bundle state when the
   oracles pass).  Returns a list of (prop, kind, what)."""
@@ -137,8 +150,14 @@ def undo_redo_oracle(e, out, before, after, before_schema):
     res.append(('C01', classify_undo_failure(out, t), t[-300:]))
     return res
   u = G.snapshot(e)
+  if has_cycle(u):
+    return res               # a cyclic formula program shows up: values are history dependent (C18/C05), not C01/C03
   if G.canon(u) != G.canon(before):      # canon (JSON text) also tells True from 1, which == does not
-    res.append(('C01', classify_restore_failure(out), '; '.join(strict_diff(before, u))))
+    d = strict_diff(before, u, limit=12)
+    kind = classify_restore_failure(out)
+    if kind == 'undo-does-not-restore' and only_decoded_errors(d):
+      kind = 'undo-does-not-restore:error-cell-decoded'
+    res.append(('C01', kind, '; '.join(d[:6])))
   if G.engine_schema(e) != before_schema:
     res.append(('C01', 'undo-schema-differs', 'engine schema after undo differs'))
   try:
@@ -147,9 +166,16 @@ def undo_redo_oracle(e, out, before, after, before_schema):
     res.append(('C03', 'redo-raises', traceback.format_exc()[-300:]))
     return res
   rd = G.snapshot(e)
+  if has_cycle(rd):
+    return res
   if G.canon(rd) != G.canon(after):
-    res.append(('C03', 'redo-differs', '; '.join(strict_diff(after, rd))))
+    d = strict_diff(after, rd, limit=12)
+    res.append(('C03', 'redo-differs:error-cell-decoded' if only_decoded_errors(d) else 'redo-differs', '; '.join(d[:6])))
   return res
+
+
+def has_cycle(snap):
+  return 'CircularRefError' in G.canon(snap)
 
 
 def build(history):
@@ -173,10 +199,12 @@ def check_bundle(e, bundle):
     G.clean(e)
     return [], None
   after = G.snapshot(e)
+  if has_cycle(before) or has_cycle(after):
+    return [], out           # cyclic formula programs have history-dependent values (C18/C05): outside C01/C03
   return undo_redo_oracle(e, out, before, after, before_schema), out
 
 
-def replay_witness(w, prop):
+def replay_witness(w, prop, ctx=None):
   """Witness {'history': [...], 'bundle': [...]} -> description if the bundle still fails the oracle of prop."""
   e = build(w.get('history', []))
   if w.get('whole_history'):
@@ -186,9 +214,29 @@ def replay_witness(w, prop):
     return d
   issues, _out = check_bundle(e, w['bundle'])
   for p, kind, what in issues:
+    if p == prop and kind in ('undo-does-not-restore', 'redo-differs') and ctx is not None and ':' in (w.get('kind') or ''):
+      iss = {'kind': kind}
+      refine_with_code(iss, code_of_bundle(ctx, w.get('history', []), w['bundle']))
+      kind = iss['kind']
     if p == prop and (not w.get('kind') or kind == w['kind']):
       return '%s: %s' % (kind, what)
   return None
+
+
+def only_formula_cells_differ(e, a, b):
+  """Same tables and row ids, and every differing cell sits in a formula column (by the engine schema)."""
+  if set(a) != set(b):
+    return False
+  for t in a:
+    if a[t]['ids'] != b[t]['ids'] or set(a[t]['cols']) != set(b[t]['cols']):
+      return False
+    sch = e.schema.get(t)
+    for c in a[t]['cols']:
+      if json.dumps(a[t]['cols'][c], sort_keys=True, default=repr) != json.dumps(b[t]['cols'][c], sort_keys=True, default=repr):
+        col = sch.columns.get(c) if sch is not None else None
+        if col is None or not col.isFormula:
+          return False
+  return True
 
 
 def classify_history_failure(tb):
@@ -207,6 +255,8 @@ def whole_history_undo(history):
     try:
       out = G.apply(e, b)
       undos.append(G.reprs(out.undo))
+      if has_cycle(G.snapshot(e)):
+        return None        # cyclic formula program: values are history dependent (C18/C05), outside C01
     except Exception:
       G.clean(e)
       if G.canon(G.snapshot(e)) != before:
@@ -220,7 +270,8 @@ def whole_history_undo(history):
                                                                      len(undos), tb[-300:])
   end = G.snapshot(e)
   if G.canon(end) != G.canon(start):
-    return 'after undoing all bundles in reverse the document differs from the start: ' + \
+    kind = 'history-undo-differs:formula-cells-only' if only_formula_cells_differ(e, start, end) else 'history-undo-differs'
+    return kind + ': after undoing all bundles in reverse the document differs from the start: ' + \
            '; '.join(strict_diff(start, end))
   return None
 
@@ -333,6 +384,36 @@ class PendGen(histgen.HistGen):
     return acts
 
 
+def refine_with_code(issue, code):
+  """The model replays the ENGINE's undo / stored list of the recorded trace as plain doc actions.  When that replay
+  restores (reproduces) every cell but the engine ends elsewhere, the action log is right and the difference comes
+  from the recalculation the engine runs afterwards (C05's subject: incremental recalculation is history dependent for
+  some programs)."""
+  if code is None or code & (B_ACCEPT | B_UNDO_INC | B_STORED | B_UNDO | B_STATE):
+    return
+  if issue['kind'] == 'undo-does-not-restore' and not code & B_MUNDO:
+    issue['kind'] = 'undo-does-not-restore:recalculation-after-undo'
+  if issue['kind'] == 'redo-differs' and not code & B_MREDO:
+    issue['kind'] = 'redo-differs:recalculation-after-redo'
+
+
+def code_of_bundle(ctx, history, bundle):
+  """Event-trace code of one bundle replayed on a fresh document (None if it cannot be traced)."""
+  e = build(history)
+  I = k1trace.Interner()
+  try:
+    with k1trace.instrumented():
+      tr = k1trace.record_bundle(e, copy.deepcopy(bundle))
+    tr.pop('out')
+    term = k1trace.trace_term(I, tr)
+  except Exception:
+    return None
+  try:
+    return eval_codes(ctx, I, [term])[0]
+  except Exception:
+    return None
+
+
 def own_hash():
   h = hashlib.sha1()
   h.update(histrun.tree_hash().encode())
@@ -421,6 +502,11 @@ def _traced_run(ctx, n_hist, nb):
         stats['bundles'] += 1
         after = G.snapshot(e)
         out = tr.pop('out')
+        if has_cycle(after) or has_cycle(before):
+          stats['history-abandoned-cyclic-formula-program'] += 1
+          history.append(bundle)
+          undos = None
+          break
         for p in tr['problems']:
           problems.append({'what': p, 'bundle': bundle})
         for evt in tr['events']:
@@ -428,6 +514,7 @@ def _traced_run(ctx, n_hist, nb):
           if evt[0] == 'doc':
             stats['doc:' + evt[1][0]] += 1
         # the tie
+        traced = False
         try:
           term = k1trace.trace_term(I, tr)
           ch = k1trace.untouched_changed(tr, k1trace.touched_tables(tr))
@@ -438,13 +525,14 @@ def _traced_run(ctx, n_hist, nb):
           pend = pending_structure(tr['events'])
           metas.append({'bundle': bundle, 'history': copy.deepcopy(history), 'kinds': kinds, 'pending': pend,
                         'n_events': len(tr['events'])})
+          traced = True
           if len(samples) < 4:
             samples.append({'bundle': bundle, 'events': [short_event(x) for x in tr['events'][:12]]})
         except k1trace.Unmodelled as u:
           stats['outside-value-model:' + str(u)[:40]] += 1
         # the implementation oracles
         for p, kind, what in undo_redo_oracle(e, out, before, after, before_schema):
-          issues.append({'prop': p, 'kind': kind, 'what': what,
+          issues.append({'prop': p, 'kind': kind, 'what': what, 'trace_index': len(terms) - 1 if traced else None,
                          'replay': {'history': copy.deepcopy(history), 'bundle': bundle}})
           stats['oracle:' + kind] += 1
         if G.snapshot(e) != after:
@@ -467,11 +555,14 @@ def _traced_run(ctx, n_hist, nb):
         end = G.snapshot(e)
         stats['histories_undone'] += 1
         if G.canon(end) != G.canon(start_snapshot):
-          issues.append({'prop': 'C01', 'kind': 'history-undo-differs',
+          issues.append({'prop': 'C01', 'kind': 'history-undo-differs:formula-cells-only'
+                                                if only_formula_cells_differ(e, start_snapshot, end) else 'history-undo-differs',
                          'what': '; '.join(strict_diff(start_snapshot, end)),
                          'replay': {'history': copy.deepcopy(history), 'whole_history': True}})
   t_rec = time.time() - t0
   codes = eval_codes(ctx, I, terms)
+  for iss in issues:
+    refine_with_code(iss, codes[iss['trace_index']] if iss.get('trace_index') is not None else None)
   return {'metas': metas, 'codes': codes, 'stats': dict(stats), 'issues': issues, 'problems': problems,
           'samples': samples, 'wall_record_s': round(t_rec, 1), 'wall_s': round(time.time() - t0, 1),
           'types': sorted(I.types)}
